@@ -435,6 +435,7 @@ def check_c15(prog, rep, tier, cfg):
     cursor_measures_what_is_emitted(prog, rep, "C15.e")
     cursor_text_is_cut_byte_exactly(prog, rep, "C15.f")
     cursor_offsets_reach_the_core_unmodified(prog, rep, "C15.g")
+    cursors_in_changed_text_are_snapped(prog, rep, "C15.h")
 
 
 CURSOR_COLLECTION_OPS = {
@@ -514,6 +515,40 @@ def cursor_independence(prog, rep, R):
                 rep.check(ok, R, "complete-traversal:%s" % short(b.npath), "the loop over the cursors in %s %s" % (short(b.npath), why), where=c.where(), instance={"body": short(b.npath), "loop": "exits on exhaustion only"})
     rep.floor(R, "operations on cursor collections", n, 20)
     rep.ok(R, {"operations": sorted((x or "?").split("::")[-1] for x in seen)})
+
+
+def cursors_in_changed_text_are_snapped(prog, rep, R):
+    """C15.h — "every reported cursor lies on a character boundary": a cursor inside a token is reported at a byte offset inside the
+    token's NEW text, which can differ from the old one in front of the cursor (a blank inserted after `//`, a re-indented
+    multi-line string); an offset carried over from the old text is then not necessarily a boundary of the new one.  In
+    relocate_cursors, both arms that compute an offset into the token's content (TokPos::Content, TokPos::MultilineContent) pass it
+    through a function that moves it to a character boundary (std's floor/ceil_char_boundary, or a workspace function built on
+    str::is_char_boundary)."""
+    rc = [b for k, b in prog.bodies.items() if k.endswith("CursorTrackerImpl as pasfmt_core::traits::CursorTracker>::relocate_cursors")]
+    if not rep.check(len(rc) == 1, R, "anchor:relocate_cursors", "relocate_cursors not found"):
+        return
+    b = rc[0]
+
+    def snapper(name, depth=0):
+        if name in ("core::str::floor_char_boundary", "core::str::ceil_char_boundary"):
+            return True
+        cb = prog.body(name)
+        if cb is None or not cb.crate.startswith("pasfmt") or depth > 1:
+            return False
+        fam = [cb] + [x for x in prog.bodies.values() if x.npath.startswith(cb.npath + "::")]
+        return any((c.callee or "") == "core::str::is_char_boundary" or snapper(norm(c.t.get("resolved") or c.callee or ""), depth + 1) for x in fam for c in x.calls() if x is not b)
+    arms = {"Content": 0, "MultilineContent": 0}
+    for c in b.calls():
+        nm = norm(c.t.get("resolved") or c.callee or "")
+        if not snapper(nm):
+            continue
+        for f in dominating_variant_facts(prog, b, c.bb):
+            if f[1] == "is" and f[2] and f[2][0] in arms and "tok_pos" in f[0]:
+                # the snapped value is what is stored
+                arms[f[2][0]] += 1
+    for arm, n in arms.items():
+        rep.check(n >= 1, R, "snapped:" + arm, "relocate_cursors reports an offset into a token's (possibly changed) text for TokPos::%s without moving it to a character boundary: `//éa` with --cursor 4 "
+                  "(after `é`) is reported at 4, between the two bytes of `é` in `// éa`" % arm, where="%s:%d" % (b.file, b.line), instance={"arm": arm, "boundary_adjustments": n})
 
 
 def cursor_offsets_reach_the_core_unmodified(prog, rep, R):
